@@ -52,6 +52,8 @@ CORPUS = [
         "if id_ in dic:\n    message = f\"Object with ID `{id_}' already exists\"\n    raise JSONParseError(message)", benign=True),
     Mut('c13-benign-optional-key', BM, 'SimpleClockModel.from_json', "rate = process_object(data['rate'], dic)",
         "rate = process_object(data['rate'], dic)\nextra = data.get('note', None)", benign=True),
+    Mut('c13-from-json-swallows-parse-error', 'torchtree/evolution/alignment.py', '', "        taxa = process_object(data['taxa'], dic)\n", "        try:\n            taxa = process_object(data['taxa'], dic)\n        except Exception:\n            taxa = None\n", expect=[('C13.W', 'Alignment::parse-errors-of-nested-specifications-propagate')], mode='text'),
+    Mut('c13-benign-from-json-reraises', 'torchtree/evolution/alignment.py', '', "        taxa = process_object(data['taxa'], dic)\n", "        try:\n            taxa = process_object(data['taxa'], dic)\n        except KeyError as e:\n            raise ValueError('taxa') from e\n", benign=True, mode='text'),
 ]
 for m in CORPUS:
     if m.id == 'c13-duplicate-check-after':
